@@ -87,13 +87,14 @@ func genC05(tier string, rng *RNG, w *CaseWriter) {
 	type variant struct {
 		fresh, noCRLSign, http bool
 		st                     time.Time
+		freshRaw               string // shape of the certificate's freshest-CRL extension (with fresh)
 	}
 	run := func(bs []dpBehav, v variant) {
 		var nc map[int]bool
 		if v.noCRLSign {
 			nc = map[int]bool{1: true}
 		}
-		chain := buildRevChain("cs", []certSlots{{NCRL: len(bs), Freshest: v.fresh}}, nc, nil)
+		chain := buildRevChain("cs", []certSlots{{NCRL: len(bs), Freshest: v.fresh, FreshestRaw: v.freshRaw}}, nc, nil)
 		urls := chain.xs()[0].CRLDistributionPoints
 		m := map[string]crlDelivery{}
 		var names []string
@@ -124,6 +125,15 @@ func genC05(tier string, rng *RNG, w *CaseWriter) {
 		w.Emit("(mk @ID@ "+term+")", desc, cls, nontriv || v.fresh || v.noCRLSign)
 	}
 	plain := variant{}
+	// the certificate's freshest-CRL pointer in shapes that name no usable URI: it is still a pointer that must be honoured
+	dnsOnly := string([]byte{0x30, 0x11, 0x30, 0x0f, 0xA0, 0x0d, 0xA0, 0x0b, 0x82, 0x09, 'c', 'r', 'l', '.', 'e', 'x', '.', 'c', 'o'})
+	mailFirst := string([]byte{0x30, 0x17, 0x30, 0x15, 0xA0, 0x13, 0xA0, 0x11, 0x81, 0x05, 'a', '@', 'b', '.', 'c', 0x86, 0x08, 'h', 't', 't', 'p', ':', '/', '/', 'x'})
+	issuerOnly := string([]byte{0x30, 0x0b, 0x30, 0x09, 0xA2, 0x07, 0x82, 0x05, 'i', 's', 's', 'u', 'r'})
+	for _, a := range alpha {
+		for _, raw := range []string{dnsOnly, mailFirst, issuerOnly} {
+			run([]dpBehav{a}, variant{fresh: true, freshRaw: raw})
+		}
+	}
 	for _, a := range alpha {
 		for _, v := range []variant{plain, {fresh: true}, {noCRLSign: true}, {http: true}, {st: stRef}, {fresh: true, http: true}} {
 			run([]dpBehav{a}, v)
